@@ -257,6 +257,8 @@ pub fn gen_sched(rng: &mut Rng, lazy: bool) -> SchedGen {
             s.tags.push(serial_tag.to_owned());
         }
     }
+    // a third of the runs are built and driven through the `Cucumber` builder (its delegating methods + `run`)
+    g.cfg.via_cucumber = rng.chance(1, 3);
     // limits: builder / CLI
     g.cfg.builder_conc = match rng.below(5) { 0 => None, 1 => Some(None), _ => Some(Some(rng.range(1, 3))) };
     g.cfg.cli_conc = rng.chance(1, 4).then(|| rng.range(1, 3));
